@@ -136,6 +136,15 @@ func runC18(c *Ctx, i int, r *rand.Rand) {
 				mth := pick(r, []string{"GET", "POST", "PUT", "PATCH", "DELETE", "OPTIONS"})
 				if mth != s.Req.Binding.HTTPMethod && !(s.Req.M.Name == "Verb") {
 					s.Req.HTTPMethod = mth
+					if mth == "OPTIONS" && chance(r, 70) {
+						// a CORS preflight is still a request with the wrong HTTP method for this route
+						s.Req.Extra["Access-Control-Request-Method"] = []string{s.Req.Binding.HTTPMethod}
+						s.Req.Extra["Origin"] = []string{"https://example.test"}
+						if chance(r, 60) {
+							s.Cfg.Unknown = true
+							expectUnknown = 0
+						}
+					}
 					break
 				}
 				if s.Req.M.Name == "Verb" {
